@@ -295,13 +295,17 @@ impl Table {
         metaindex_block: &MetaIndexBlockReader,
     ) -> TableReadResult<Option<FilterBlockReader>> {
         let filter_block_name = filter_policy::get_filter_block_name(options.filter_policy());
+        let filter_block_key = MetaIndexKey::new(filter_block_name);
         let mut metaindex_block_iter = metaindex_block.iter();
         // Seek to the filter meta block
-        if let Err(error) = metaindex_block_iter.seek(&MetaIndexKey::new(filter_block_name)) {
+        if let Err(error) = metaindex_block_iter.seek(&filter_block_key) {
             return Err(ReadError::FilterBlock(format!("{}", error)));
         }
 
         match metaindex_block_iter.current() {
+            // The seek stops at the first entry at or after the name. A filter block that was
+            // written by another filter policy cannot be interpreted by the configured one.
+            Some((key, _)) if *key != filter_block_key => Ok(None),
             Some((_key, raw_contents)) => {
                 let filter_block_handle = BlockHandle::try_from(raw_contents)?;
                 let raw_filter_block = Table::read_block_from_disk(file, &filter_block_handle)?;
